@@ -5,12 +5,16 @@ package swagen30
 // Contracts for gvc (see /verif/DESIGN.md). Comment-only: this file adds no code to any build.
 
 // kin-openapi's validator: assumed to report its verdict and nothing else.
+// What is validated (and serialised right after): the document as it stands when Validate is called
+//@ event checked30(version string, title string, description string, tos string, infoVersion string, nservers int, url string) local
 //@ extern github.com/getkin/kin-openapi/openapi3.T.Validate
 //@ emits validatedSpec(result == nil)
+//@ emits checked30(doc.OpenAPI, doc.Info.Title, doc.Info.Description, doc.Info.TermsOfService, doc.Info.Version, len(doc.Servers), doc.Servers[0].URL)
 
 // Placeholders: the three emitters change the document (any heap) but cause no event.
-//@ func GenerateSecuritySpec trusted havocs
-//@ func GenerateModelsSpec trusted havocs
+// assumed frame: the model emitter fills components.schemas and writes schema objects only
+//@ func GenerateModelsSpec trusted
+//@ modifies any(elems(openapi3.Schemas)), any(openapi3.Schema), any(openapi3.SchemaRef), any(elems([]string)), any(elems([]any)), any(elems(openapi3.SchemaRefs))
 
 // InterfaceToSchemaRef: assumed (kin-openapi constructors, recursion over type names). A reference to a component
 // that has not been generated yet has no Value; every other result owns a fresh Value.
@@ -20,11 +24,16 @@ package swagen30
 
 //@ func generateStructSpec props C07,C14 havocs
 //@ requires openapi != nil && openapi.Components != nil && openapi.Components.Schemas != nil
-//@ func GenerateControllersSpec trusted havocs
 
-//@ func GenerateSpec props C08,C14 havocs
+//@ func GenerateSpec props C08,C20,C01,C14
+//@ modifies any(openapi3.PathItem), any(openapi3.Paths), any(openapi3.Responses), any(definitions.TypeMetadata.Name), any(elems([]*openapi3.ParameterRef)), any(openapi3.RequestBody), any(openapi3.RequestBodyRef), any(elems(openapi3.Content)), any(elems(openapi3.Schemas)), any(elems([]string)), any(openapi3.Schema.Description), any(openapi3.Schema.Required), any(openapi3.Schema.Format), any(openapi3.Schema.Min), any(openapi3.Schema.Max), any(openapi3.Schema.ExclusiveMin), any(openapi3.Schema.ExclusiveMax), any(openapi3.Schema.MinLength), any(openapi3.Schema.MaxLength), any(openapi3.Schema.Pattern), any(openapi3.Schema.MinItems), any(openapi3.Schema.MaxItems), any(openapi3.Schema.UniqueItems), any(openapi3.Schema.Enum), any(SchemaRefMap), any(elems(schemaRefMap)), any(elems([]any)), any(openapi3.Schema), any(openapi3.SchemaRef), any(elems(openapi3.SchemaRefs)), any(elems(map[string]interface{})), any(elems([]interface{}))
 //@ requires config != nil
-//@ mayemit validatedSpec
+//@ requires swagtool.emittable(defs)
+//@ requires swagtool.uniqueSchemes(config.SecuritySchemes)
+//@ mayemit validatedSpec, checked30, opRegistered, pathSet
+// info and servers are those of the configuration, literally (C20); exactly the visible routes were registered (C01)
+//@ ensures literal: implies(result1 == nil, evcount(checked30) == old(evcount(checked30))+1 && evlast(checked30, 0) == "3.0.0" && evlast(checked30, 1) == old(config.Info.Title) && evlast(checked30, 2) == old(config.Info.Description) && evlast(checked30, 3) == old(config.Info.TermsOfService) && evlast(checked30, 4) == old(config.Info.Version) && evlast(checked30, 5) == 1 && evlast(checked30, 6) == old(config.BaseURL))
+//@ ensures routes: implies(result1 == nil, evcount(opRegistered) == old(evcount(opRegistered)) + old(sumVisible30(defs, len(defs))))
 //@ ensures gate: implies(result1 == nil, evcount(validatedSpec) == old(evcount(validatedSpec))+1 && evlast(validatedSpec, 0))
 //@ ensures failed: implies(result1 != nil, len(result0) == 0)
 //@ ensures once: evcount(validatedSpec) <= old(evcount(validatedSpec))+1
@@ -38,21 +47,31 @@ package swagen30
 // ---- operations (C01), security (C04), parameters (C06) ----
 //@ event opRegistered(verb string, op *openapi3.Operation) local
 //@ event pathSet(path string) local
+// assumed frames of kin-openapi's registration API: SetOperation writes the path item, Paths.Set writes the paths
+// object (its private map), Find reads only
 //@ extern github.com/getkin/kin-openapi/openapi3.PathItem.SetOperation
+//@ modifies any(openapi3.PathItem)
 //@ emits opRegistered(method, operation)
 //@ extern github.com/getkin/kin-openapi/openapi3.Paths.Set
+//@ modifies any(openapi3.Paths)
 //@ emits pathSet(key)
 //@ extern github.com/getkin/kin-openapi/openapi3.Paths.Find
+//@ ensures true
+//@ extern github.com/getkin/kin-openapi/openapi3.Responses.Set
+//@ modifies any(openapi3.Responses)
+//@ extern github.com/getkin/kin-openapi/openapi3.NewPaths
+//@ ensures result != nil && fresh(result)
 //@ extern github.com/getkin/kin-openapi/openapi3.NewResponses
 //@ ensures result != nil
 
 //@ func createOperation props C01,C14
 //@ ensures result != nil && fresh(result)
 //@ ensures result.OperationID == route.OperationId && result.Deprecated == route.Deprecation.Deprecated && result.Description == route.Description
-//@ ensures len(result.Tags) == 1 && result.Tags[0] == def.Tag && len(result.Parameters) == 0 && result.Responses != nil
+//@ ensures len(result.Tags) == 1 && result.Tags[0] == def.Tag && len(result.Parameters) == 0 && fresh(result.Parameters) && result.RequestBody == nil && result.Responses != nil
 
-//@ func setNewRouteOperation props C01,C14 havocs
+//@ func setNewRouteOperation props C01,C14
 //@ requires openapi != nil && openapi.Paths != nil
+//@ modifies any(openapi3.PathItem), any(openapi3.Paths)
 //@ mayemit opRegistered, pathSet
 //@ ensures evcount(opRegistered) == old(evcount(opRegistered))+1 && evlast(opRegistered, 0) == string(route.HttpVerb) && evlast(opRegistered, 1) == operation
 //@ ensures evcount(pathSet) == old(evcount(pathSet))+1 && evlast(pathSet, 0) == common.RemoveDuplicateSlash(def.RestMetadata.Path+route.RestMetadata.Path)
@@ -133,3 +152,55 @@ package swagen30
 //@ requires operation.RequestBody == nil || formShaped(operation.RequestBody)
 //@ ensures formShaped(operation.RequestBody)
 //@ modifies operation.RequestBody, any(openapi3.Schema.Format), any(openapi3.Schema.Min), any(openapi3.Schema.Max), any(openapi3.Schema.ExclusiveMin), any(openapi3.Schema.ExclusiveMax), any(openapi3.Schema.MinLength), any(openapi3.Schema.MaxLength), any(openapi3.Schema.Pattern), any(openapi3.Schema.MinItems), any(openapi3.Schema.MaxItems), any(openapi3.Schema.UniqueItems), any(openapi3.Schema.Enum), any(openapi3.Schema.Description), any(openapi3.Schema.Required), any(SchemaRefMap), any(elems(schemaRefMap)), any(elems([]any)), any(elems(openapi3.Schemas)), any(elems([]string))
+
+
+// ---- responses and the per-controller loop (C01: hidden routes are never registered, every other route is) ----
+//@ func createErrorResponse props C06,C14
+//@ requires len(route.Responses) >= 1
+//@ modifies any(definitions.TypeMetadata.Name), any(openapi3.Schema.Format), any(openapi3.Schema.Min), any(openapi3.Schema.Max), any(openapi3.Schema.ExclusiveMin), any(openapi3.Schema.ExclusiveMax), any(openapi3.Schema.MinLength), any(openapi3.Schema.MaxLength), any(openapi3.Schema.Pattern), any(openapi3.Schema.MinItems), any(openapi3.Schema.MaxItems), any(openapi3.Schema.UniqueItems), any(openapi3.Schema.Enum), any(SchemaRefMap), any(elems(schemaRefMap)), any(elems([]any))
+//@ ensures result != nil && fresh(result) && result.Value != nil
+
+// (assumed: the body stores &route.ResponseDescription, an interior pointer of the parameter copy - outside the subset)
+//@ func createResponseSuccess trusted
+//@ modifies any(openapi3.Schema.Format), any(openapi3.Schema.Min), any(openapi3.Schema.Max), any(openapi3.Schema.ExclusiveMin), any(openapi3.Schema.ExclusiveMax), any(openapi3.Schema.MinLength), any(openapi3.Schema.MaxLength), any(openapi3.Schema.Pattern), any(openapi3.Schema.MinItems), any(openapi3.Schema.MaxItems), any(openapi3.Schema.UniqueItems), any(openapi3.Schema.Enum), any(SchemaRefMap), any(elems(schemaRefMap)), any(elems([]any))
+//@ ensures result != nil && fresh(result) && result.Value != nil && result.Value.Description != nil && *result.Value.Description == route.ResponseDescription
+
+//@ spec hidden30(r definitions.RouteMetadata) bool = r.Hiding.Type == definitions.HideMethodAlways
+//@ rec countVisible30(def definitions.ControllerMetadata, n int) int = ite(n <= 0, 0, countVisible30(def, n-1) + ite(hidden30(def.Routes[n-1]), 0, 1))
+
+//@ func generateControllerSpec props C01,C11,C14
+//@ requires openapi != nil && openapi.Paths != nil && config != nil
+//@ requires forall(k, 0, len(def.Routes), len(def.Routes[k].Responses) >= 1 && swagtool.noBodyFormMix(def.Routes[k]))
+//@ modifies any(openapi3.PathItem), any(openapi3.Paths), any(openapi3.Responses), any(definitions.TypeMetadata.Name), any(elems([]*openapi3.ParameterRef)), any(openapi3.RequestBody), any(openapi3.RequestBodyRef), any(elems(openapi3.Content)), any(elems(openapi3.Schemas)), any(elems([]string)), any(openapi3.Schema.Description), any(openapi3.Schema.Required), any(openapi3.Schema.Format), any(openapi3.Schema.Min), any(openapi3.Schema.Max), any(openapi3.Schema.ExclusiveMin), any(openapi3.Schema.ExclusiveMax), any(openapi3.Schema.MinLength), any(openapi3.Schema.MaxLength), any(openapi3.Schema.Pattern), any(openapi3.Schema.MinItems), any(openapi3.Schema.MaxItems), any(openapi3.Schema.UniqueItems), any(openapi3.Schema.Enum), any(SchemaRefMap), any(elems(schemaRefMap)), any(elems([]any))
+//@ mayemit opRegistered, pathSet
+//@ ensures hiddenSkipped: implies(result == nil, evcount(opRegistered) == old(evcount(opRegistered)) + countVisible30(def, len(def.Routes)))
+//@ ensures last: implies(result == nil && len(def.Routes) > 0 && !hidden30(def.Routes[len(def.Routes)-1]), evlast(opRegistered, 0) == string(def.Routes[len(def.Routes)-1].HttpVerb))
+//@ loop 0 invariant 0 <= _n && _n <= len(def.Routes) && openapi.Paths != nil && evcount(opRegistered) == old(evcount(opRegistered)) + countVisible30(def, _n)
+//@ loop 0 invariant implies(_n > 0 && !hidden30(def.Routes[_n-1]), evlast(opRegistered, 0) == string(def.Routes[_n-1].HttpVerb))
+
+
+//@ rec sumVisible30(defs []definitions.ControllerMetadata, n int) int = ite(n <= 0, 0, sumVisible30(defs, n-1) + countVisible30(defs[n-1], len(defs[n-1].Routes)))
+// All controllers: exactly the routes that are not hidden are registered (one registration per such route).
+//@ func GenerateControllersSpec props C01,C11,C14
+//@ requires openapi != nil && openapi.Paths != nil && config != nil
+//@ requires swagtool.emittable(defs)
+//@ modifies any(openapi3.PathItem), any(openapi3.Paths), any(openapi3.Responses), any(definitions.TypeMetadata.Name), any(elems([]*openapi3.ParameterRef)), any(openapi3.RequestBody), any(openapi3.RequestBodyRef), any(elems(openapi3.Content)), any(elems(openapi3.Schemas)), any(elems([]string)), any(openapi3.Schema.Description), any(openapi3.Schema.Required), any(openapi3.Schema.Format), any(openapi3.Schema.Min), any(openapi3.Schema.Max), any(openapi3.Schema.ExclusiveMin), any(openapi3.Schema.ExclusiveMax), any(openapi3.Schema.MinLength), any(openapi3.Schema.MaxLength), any(openapi3.Schema.Pattern), any(openapi3.Schema.MinItems), any(openapi3.Schema.MaxItems), any(openapi3.Schema.UniqueItems), any(openapi3.Schema.Enum), any(SchemaRefMap), any(elems(schemaRefMap)), any(elems([]any))
+//@ mayemit opRegistered, pathSet
+//@ ensures count: implies(result == nil, evcount(opRegistered) == old(evcount(opRegistered)) + sumVisible30(defs, len(defs)))
+//@ loop 0 invariant 0 <= _n && _n <= len(defs) && openapi.Paths != nil && evcount(opRegistered) == old(evcount(opRegistered)) + sumVisible30(defs, _n)
+
+
+// ---- components.securitySchemes are those of the configuration, literally (C20, C04) ----
+//@ spec schemeDocumented30(m openapi3.SecuritySchemes, c definitions.SecuritySchemeConfig) bool = indom(m, c.SecurityName) && m[c.SecurityName] != nil && m[c.SecurityName].Value != nil && m[c.SecurityName].Value.Type == string(c.Type) && m[c.SecurityName].Value.In == string(c.In) && m[c.SecurityName].Value.Name == c.FieldName && m[c.SecurityName].Value.Description == c.Description
+//@ func GenerateSecuritySpec props C04,C20,C14
+//@ requires openapi != nil && openapi.Components != nil && securityConfig != nil
+//@ requires swagtool.uniqueSchemes(*securityConfig)
+//@ modifies openapi.Components.SecuritySchemes
+//@ ensures result == nil && openapi.Components.SecuritySchemes != nil
+//@ ensures literal: forall(k, 0, len(*securityConfig), schemeDocumented30(openapi.Components.SecuritySchemes, (*securityConfig)[k]))
+//@ ensures only: forall(n, string, implies(indom(openapi.Components.SecuritySchemes, n), exists(k, 0, len(*securityConfig), (*securityConfig)[k].SecurityName == n)))
+//@ loop 0 invariant 0 <= _n && _n <= len(*securityConfig)
+//@ loop 0 invariant securitySchemes != nil
+//@ loop 0 invariant fresh(securitySchemes)
+//@ loop 0 invariant forall(k, 0, _n, schemeDocumented30(securitySchemes, (*securityConfig)[k]) && fresh(securitySchemes[(*securityConfig)[k].SecurityName]) && fresh(securitySchemes[(*securityConfig)[k].SecurityName].Value))
+//@ loop 0 invariant forall(n, string, implies(indom(securitySchemes, n), exists(k, 0, _n, (*securityConfig)[k].SecurityName == n)))
